@@ -36,6 +36,9 @@ type fnMode struct {
 	Prefix     int
 	PrefixRet  string
 	PrefixType string
+	// Stubs: callee key -> name of an extra parameter that stands for the call's result
+	// ("an external call becomes a parameter"); the parameter's type is the callee's result type
+	Stubs map[string]string
 }
 
 // the whitelist: Go function (Recv.Name or Name) -> mode
@@ -83,6 +86,7 @@ var targets = []struct {
 	{"isHorizontalPoint", fnMode{}},
 	{"isClockwise", fnMode{}},
 	{"getSegmentIntersection", fnMode{}},
+	{"PolyPathBase.IsHole", fnMode{Stubs: map[string]string{"PolyPathBase.Level": "level"}}},
 }
 
 type errT struct{ msg string }
@@ -116,6 +120,7 @@ type fctx struct {
 	rettype  string
 	locals   map[string]string // var -> lean type
 	order    []string
+	stubParams map[string]string
 }
 
 func main() {
@@ -448,7 +453,7 @@ func (t *tr) translateTop(key string, mode fnMode, subst map[string]types.Type, 
 				panic(r)
 			}
 		}()
-		c := &fctx{t: t, name: lname, mode: mode, tsubst: subst, assigned: map[string]bool{}, locals: map[string]string{}}
+		c := &fctx{t: t, name: lname, mode: mode, tsubst: subst, assigned: map[string]bool{}, locals: map[string]string{}, stubParams: map[string]string{}}
 		def := c.translateFunc(fd, modes)
 		t.defs = append(t.defs, c.aux...)
 		t.defs = append(t.defs, def)
@@ -476,6 +481,9 @@ func (c *fctx) needsExcept(fd *ast.FuncDecl, modes map[string]fnMode) bool {
 				need = true
 			}
 			if key := c.calleeKey(x); key != "" {
+				if _, stub := c.mode.Stubs[key]; stub {
+					return true
+				}
 				ln := c.calleeLean(x, key, modes)
 				if c.t.partial[ln] {
 					need = true
@@ -586,8 +594,10 @@ func (c *fctx) translateFunc(fd *ast.FuncDecl, modes map[string]fnMode) string {
 		if len(r.Names) == 1 {
 			rn = r.Names[0].Name
 		}
-		params = append(params, fmt.Sprintf("(%s : %s)", rn, c.lt(sig.Recv().Type())))
-		pnames = append(pnames, rn)
+		if _, stubbed := c.mode.Stubs["PolyPathBase.Level"]; !stubbed {
+			params = append(params, fmt.Sprintf("(%s : %s)", rn, c.lt(sig.Recv().Type())))
+			pnames = append(pnames, rn)
+		}
 	}
 	for i := 0; i < sig.Params().Len(); i++ {
 		p := sig.Params().At(i)
@@ -642,6 +652,14 @@ func (c *fctx) translateFunc(fd *ast.FuncDecl, modes map[string]fnMode) string {
 		fmt.Fprintf(&body, "  return %s\n", c.mode.PrefixRet)
 	} else if len(rts) == 0 {
 		body.WriteString("  return ()\n")
+	}
+	var spn []string
+	for n := range c.stubParams {
+		spn = append(spn, n)
+	}
+	sort.Strings(spn)
+	for _, n := range spn {
+		params = append(params, fmt.Sprintf("(%s : %s)", n, c.stubParams[n]))
 	}
 	var hd string
 	if c.partial {
@@ -1304,6 +1322,10 @@ func (c *fctx) call(x *ast.CallExpr, modes map[string]fnMode) string {
 	key := c.calleeKey(x)
 	if key == "" {
 		fail("unsupported call %s", c.t.srcText(x.Fun))
+	}
+	if pn, ok := c.mode.Stubs[key]; ok {
+		c.stubParams[pn] = c.lt(c.typeOf(x))
+		return pn
 	}
 	ln := c.calleeLean(x, key, modes)
 	if msg, bad := c.t.failed[key]; bad {
